@@ -146,6 +146,20 @@ def check_sequences(rng: random.Random, conn, model: Model, lib_edges, acc: Acc)
         n, k = rng.choice([(2, 1), (3, 1), (2, 2), (4, 2), (6, 2), (3, 3), (6, 3), (4, 4), (8, 4), (8, 2)])
     idx = rng.sample(range(len(lib_edges)), n)
     case = {"edges": [list(model.edges[i]) for i in idx], "subgroup_size": k}
+    try:
+        _check_generator_call(idx, k, case, conn, model, lib_edges, acc)
+    except common.CaseBudgetExceeded:
+        raise
+    except Exception as exc:
+        # a request inside the quantifier (edges of the layout, a subgroup size within the combination limit) for which the generator fails
+        # emits nothing usable: the same requests succeed on every earlier call of the run (seeded change C16-r13: a mutable default
+        # argument carried partitions over from earlier calls)
+        acc.finding("sequence/generator-raises", f"the sequence generator raises {type(exc).__name__} for a request of layout edges", case, {"error": str(exc)[:200]})
+    return case
+
+
+def _check_generator_call(idx, k, case, conn, model: Model, lib_edges, acc: Acc):
+    from qce_circuit.connectivity.mapping.gate_sequence_generator import GateSequenceGenerator
     gen = GateSequenceGenerator(included_edge_ids=[lib_edges[i] for i in idx], connectivity=conn)
     ident = gen.construct_allowed_gate_sequences(subgroup_size=k)
     requested = sorted(model.edges[i] for i in idx)
